@@ -12,6 +12,7 @@ pub mod c05;
 pub mod c06;
 pub mod c07;
 pub mod c08;
+pub mod c09;
 pub mod c10;
 pub mod c13;
 pub mod c14;
@@ -32,6 +33,7 @@ pub fn run(prop: &str, cfg: &Cfg) -> Outcome {
         "C06" => c06::run(cfg),
         "C07" => c07::run(cfg),
         "C08" => c08::run(cfg),
+        "C09" => c09::run(cfg),
         "C10" => c10::run(cfg),
         "C13" => c13::run(cfg),
         "C14" => c14::run(cfg),
@@ -57,6 +59,7 @@ pub fn replay(prop: &str, cfg: &Cfg, case: &Value) -> Vec<Violation> {
         "C06" => c06::replay(cfg, case),
         "C07" => c07::replay(cfg, case),
         "C08" => c08::replay(cfg, case),
+        "C09" => c09::replay(cfg, case),
         "C10" => c10::replay(cfg, case),
         "C13" => c13::replay(cfg, case),
         "C14" => c14::replay(cfg, case),
